@@ -238,7 +238,7 @@ func genBytes(t *rapid.T) string {
 var hostileLexemes = []string{"a", "b", "\"q\"", "0", "-1", "9223372036854775807", "-9223372036854775808", "9223372036854775808", "*", ".", "[", "]", "[]", "[?", "(", ")", "{", "}", ",", ":",
 	"==", "!=", "<", "<=", ">", ">=", "||", "&&", "|", "!", "&", "@", "`1`", "`[1,2]`", "'r'", "`", "'", "\"", "\\", "-", "=", "#", "\u0080", "é", "\x00", "\xff", "\xc3", "abs", "sort_by", "merge", "contains", "f", "::", "[::", "[-", "`{`", "`\"`", "'\\''"}
 
-var escapePieces = []string{`\u`, `\u1`, `\u12`, `\u123`, `\u1234`, `\ud800`, `\udc00\ud800`, `\x`, `\"`, `\\`, `\`, `\'`, "\\`", `\/`, `\n`, "a", "é", " ", "1", "{", "[", ":", ",", "\t", "\x00", "\x7f", "null", "tru"}
+var escapePieces = []string{`\u`, `\u1`, `\u12`, `\u123`, `\u1234`, `\ud800`, `\udc00\ud800`, `\x`, `\"`, `\\`, `\`, `\'`, "\\`", `\/`, `\n`, "a", "é", " ", "1", "{", "[", ":", ",", "\t", "\x00", "\x7f", "null", "tru", "\xff", "\xff\xff", "\x80\x80\x80", "\xc3", "\xe2\x82"}
 
 // genDelimited: a quoted identifier, raw string or literal whose body is built from
 // valid and broken escape pieces, placed at the start, middle or end of an expression.
@@ -366,7 +366,9 @@ func predRobust(c Case) (r Result) {
 		if o.one.Err == nil {
 			resLen = len(show(o.one.Val))
 		}
-		budget := uint64(2048*(len(expr)+len(c.Doc)+resLen)) + 16<<20
+		// every step of an expression may materialise an intermediate result of the size of
+		// the document, so the envelope has a linear part and an |expression| x |data| part
+		budget := uint64(2048*(len(expr)+len(c.Doc)+resLen)) + 16<<20 + 32*uint64(len(expr))*uint64(len(c.Doc)+resLen)
 		if used := after.TotalAlloc - before.TotalAlloc; used > budget {
 			r.Violation = fmt.Sprintf("allocation is not bounded by the input size: %d bytes allocated for %d bytes of input", used, len(expr)+len(c.Doc))
 			return
@@ -492,6 +494,12 @@ func TestC05(t *testing.T) {
 		var doc interface{}
 		kind := rapid.IntRange(0, 99).Draw(t, "kind")
 		switch {
+		case kind < 5:
+			e = genDelimited(t)
+			if uni(t, 3, "delimCtx") == 0 {
+				e = "a " + e
+			}
+			doc = genDoc(t)
 		case kind < 25:
 			e = genBytes(t)
 			doc = genDoc(t)
@@ -526,7 +534,35 @@ func TestC05(t *testing.T) {
 			e = genDeep(t)
 			doc = genDoc(t)
 			statsFor("C05").Class("deep-nesting", 1)
-		case kind < 85:
+		case kind < 84:
+			// deep documents matched by deep expressions (the evaluator, not only the parser, recurses)
+			n := rapid.IntRange(1, 2000).Draw(t, "docDepth")
+			var d interface{} = float64(7)
+			switch uni(t, 4, "deepDocKind") {
+			case 0:
+				for i := 0; i < n; i++ {
+					d = map[string]interface{}{"a": d}
+				}
+				e = "a" + strings.Repeat(".a", n-1)
+			case 1:
+				for i := 0; i < n; i++ {
+					d = []interface{}{d}
+				}
+				e = strings.Repeat("[0]", n)
+			case 2:
+				for i := 0; i < n; i++ {
+					d = []interface{}{d, float64(i)}
+				}
+				e = "@" + strings.Repeat("[]", n/2+1) + " | length(@)"
+			default:
+				for i := 0; i < n; i++ {
+					d = map[string]interface{}{"a": []interface{}{d}}
+				}
+				e = "a" + strings.Repeat("[*].a", n/2) + " | [0]"
+			}
+			doc = d
+			statsFor("C05").Class("deep-document", 1)
+		case kind < 86:
 			doc = genLargeDoc(t)
 			e = largeDocExprs[rapid.IntRange(0, len(largeDocExprs)-1).Draw(t, "lde")]
 			statsFor("C05").Class("large-doc", 1)
